@@ -279,6 +279,11 @@ func runC09(w *core.World, r *core.Report) {
 		}
 	}
 
+	checkCacheAccounting(w, r, oracles, add, upd, pop, "R4", "R5", "R6")
+}
+
+// checkCacheAccounting holds the accounting rules (C09 R4-R6); C08 R5 evaluates the same rules.
+func checkCacheAccounting(w *core.World, r *core.Report, oracles map[*ssa.Function]bool, add, upd, pop *ssa.Function, r4, r5, r6 string) {
 	// ---- R4 -----------------------------------------------------------------------------------
 	nacct := 0
 	for _, fn := range w.FuncsIn("cache") {
@@ -296,7 +301,7 @@ func runC09(w *core.World, r *core.Report) {
 							cl := classifyFrameListStore(t)
 							nacct++
 							okc := cl == "append(self, fresh map)" || strings.HasPrefix(cl, "self[:")
-							r.Check(okc, "R4", core.QName(fn)+": frame list update", t.Pos(), cl,
+							r.Check(okc, r4, core.QName(fn)+": frame list update", t.Pos(), cl,
 								"the frame list is changed by "+cl+": frames may be resurrected or shared without accounting")
 							if strings.HasPrefix(cl, "self[:") {
 								changesFrames = true
@@ -320,20 +325,20 @@ func runC09(w *core.World, r *core.Report) {
 		if changesFrames {
 			nacct++
 			r.Touch(core.QName(fn))
-			r.Check(len(useStores) > 0, "R4", core.QName(fn)+": accounting present", fn.Pos(), "adjusts CacheUseSize",
+			r.Check(len(useStores) > 0, r4, core.QName(fn)+": accounting present", fn.Pos(), "adjusts CacheUseSize",
 				"frame contents change but CacheUseSize is not adjusted: the reported size no longer equals the stored bytes")
 		}
 		for _, st := range useStores {
 			nacct++
 			cl, okc := classifyUseSizeStore(fn, st, oracles)
-			r.Check(okc, "R4", core.QName(fn)+": CacheUseSize update", st.Pos(), cl, "CacheUseSize is adjusted by "+cl+", not by the length of the value stored/removed")
+			r.Check(okc, r4, core.QName(fn)+": CacheUseSize update", st.Pos(), cl, "CacheUseSize is adjusted by "+cl+", not by the length of the value stored/removed")
 		}
 	}
-	r.Floor("R4", "accounting sites", nacct, 10)
+	r.Floor(r4, "accounting sites", nacct, 10)
 
 	// ---- R5 -----------------------------------------------------------------------------------
 	for _, fn := range []*ssa.Function{add, upd} {
-		checkRollback(w, r, fn, oracles)
+		checkRollback(w, r, fn, oracles, r5)
 	}
 
 	// ---- R6 -----------------------------------------------------------------------------------
@@ -349,7 +354,7 @@ func runC09(w *core.World, r *core.Report) {
 			}
 		}
 		if rng == nil {
-			r.Bad("R6", "cache.(*Cache).Pop: releases sizes", pop.Pos(), "Pop does not range over the removed frame")
+			r.Bad(r6, "cache.(*Cache).Pop: releases sizes", pop.Pos(), "Pop does not range over the removed frame")
 		} else {
 			for _, c := range core.CallsTo(pop, "builtin.delete") {
 				args := c.Common().Args
@@ -364,7 +369,7 @@ func runC09(w *core.World, r *core.Report) {
 					}
 				}
 			}
-			r.Check(okDel, "R6", "cache.(*Cache).Pop: releases sizes", rng.Pos(), "delete(Sizes, k) for every key of the removed frame",
+			r.Check(okDel, r6, "cache.(*Cache).Pop: releases sizes", rng.Pos(), "delete(Sizes, k) for every key of the removed frame",
 				"leaving a scope does not delete the size limits of its symbols: a later Add of the same key in another scope inherits a stale limit")
 		}
 	}
@@ -587,7 +592,7 @@ func isFrameValue(fn *ssa.Function, a ssa.Value) bool {
 }
 
 // checkRollback implements R5 for one method.
-func checkRollback(w *core.World, r *core.Report, fn *ssa.Function, oracles map[*ssa.Function]bool) {
+func checkRollback(w *core.World, r *core.Report, fn *ssa.Function, oracles map[*ssa.Function]bool, r5 string) {
 	type write struct {
 		in   ssa.Instruction
 		loc  string
@@ -667,10 +672,10 @@ func checkRollback(w *core.World, r *core.Report, fn *ssa.Function, oracles map[
 				bad = fmt.Sprintf("%s at %s reaches the error return at %s without being restored (%s)", wv.desc, w.Pos(wv.in.Pos()), w.Pos(ret.Pos()), w.PathString(path))
 			}
 		}
-		r.Check(bad == "", "R5", fmt.Sprintf("%s: error return unchanged", core.QName(fn)), ret.Pos(), "no unrestored write reaches this error return",
+		r.Check(bad == "", r5, fmt.Sprintf("%s: error return unchanged", core.QName(fn)), ret.Pos(), "no unrestored write reaches this error return",
 			"a rejected operation changes the cache: "+bad)
 	}
-	r.Floor("R5", "error returns of "+core.QName(fn), nret, 2)
+	r.Floor(r5, "error returns of "+core.QName(fn), nret, 2)
 }
 
 func sameLocKind(a, b string) bool {
